@@ -153,7 +153,31 @@ class Pool:
         return d
 
     def fingerprints(self):
-        return {k: S.fingerprint(v) for k, v in self.objects().items()}
+        d = {k: S.fingerprint(v) for k, v in self.objects().items()}
+        d['wcs'] = wcs_fingerprint(self.wcs)          # the WCS is an input of every conversion / sky membership call
+        return d
+
+
+def wcs_fingerprint(w):
+    """what a caller can observe of a WCS: its header, its array/pixel attributes and its *behaviour* on fixed probe positions
+    (also positions it cannot project - settings of the underlying wcslib object that no header shows still show there)."""
+    import astropy.units as u
+    h = hashlib.blake2b(digest_size=12)
+    with warnings.catch_warnings():
+        warnings.simplefilter('ignore')
+        h.update(w.to_header_string(relax=True).encode())
+        h.update(repr((w.pixel_shape, w.pixel_bounds, w.array_shape, w.naxis, tuple(w.wcs.ctype), tuple(w.wcs.cunit), w.wcs.radesys,
+                       repr(w.wcs.equinox), w.wcs.lonpole, w.wcs.latpole, w.sip is None, w.cpdis1 is None, w.det2im1 is None)).encode())
+        h.update(np.asarray(w.wcs.crpix, dtype=float).tobytes() + np.asarray(w.wcs.crval, dtype=float).tobytes()
+                 + np.asarray(w.wcs.get_pc(), dtype=float).tobytes() + np.asarray(w.wcs.get_cdelt(), dtype=float).tobytes())
+        ref = w.pixel_to_world(w.wcs.crpix[0] - 1, w.wcs.crpix[1] - 1)
+        probes = ref.directional_offset_by(np.array([0.0, 77.0, 160.0, 200.0, 300.0, 10.0]) * u.deg,
+                                           np.array([0.01, 1.0, 89.0, 91.0, 150.0, 179.5]) * u.deg)
+        x, y = w.world_to_pixel(probes)
+        h.update(np.asarray(x, dtype=float).tobytes() + np.asarray(y, dtype=float).tobytes())
+        back = w.pixel_to_world(np.array([0.0, 1e3, -1e6, 1e9]), np.array([0.0, -1e3, 1e6, 1e9]))
+        h.update(np.asarray(back.data.lon.deg, dtype=float).tobytes() + np.asarray(back.data.lat.deg, dtype=float).tobytes())
+    return h.hexdigest()
 
 
 def module_state():
@@ -388,10 +412,22 @@ DOCS = {
     'ds9': ('# Region file format: DS9\nglobal color=blue width=2 select=0\nfk5\ncircle(10:00:00,+20:00:00,30") # text={A} tag={t1}\n'
             '-ellipse(150.1,20.1,10",20",30) # color=red\nimage\nbox(10,20,5,6,40)\n# composite(5,5,0) || composite=1 select=0\ncircle(5,5,2) ||\npoint(7,8) # point=x\n'
             'galactic; polygon(10,20,11,20,11,21)\n'),
-    'ds9b': ('image\ncircle(1,2,3)\nannulus(4,5,1,2,3)\nphysical\nicrs; text(10,20) # text={hello}\nline(1,2,3,4)\n'),
+    # every shape, in pixel, decimal-degree and sexagesimal notation (two polygons: any per-shape parser state is visited twice)
+    'ds9b': ('image\ncircle(1,2,3)\nannulus(4,5,1,2,3)\nphysical\nicrs; text(10,20) # text={hello}\nline(1,2,3,4)\n'
+             'fk5\npolygon(10:00:00,+20:00:00,10:00:10,+20:00:00,10:00:10,+20:01:00)\n'
+             'ellipse(10:00:00,+20:00:00,10",20",30)\nbox(10:00:00,-20:00:00,10",20",30)\nannulus(10:00:00,+20:00:00,10",20")\n'
+             'line(10:00:00,+20:00:00,10:00:10,+20:00:10)\npoint(10:00:00,+20:00:00) # point=cross\ntext(10:00:00,+20:00:00) # text={t}\n'
+             'ellipse(10:00:00,+20:00:00,10",20",20",40",30)\nbox(150.0,20.0,10",20",20",40",30)\n'
+             'fk4; polygon(10:00:00,+20:00:00,10:00:10,+20:00:00,10:00:10,+20:01:00,10:00:05,+20:02:00)\n'
+             'galactic; polygon(10:00:00,+20:00:00,10:10:00,+20:00:00,10:10:00,+20:10:00)\n'
+             'image; polygon(1,2,3,4,5,1)\n'),
     'crtf': ('#CRTFv0\nglobal coord=J2000, color=blue\ncircle[[18h12m24s, -23d11m00s], 2.3arcsec], label=\'x\'\n'
              '-ellipse[[12deg, 5deg], [2arcmin, 1arcmin], 30deg], coord=GALACTIC\nann rotbox[[10pix, 20pix], [5pix, 6pix], 10deg], coord=image\n'),
-    'crtfb': ('#CRTFv0\npoly[[1pix,2pix],[3pix,4pix],[5pix,1pix]], coord=image\nsymbol[[2deg, 3deg], .]\n'),
+    'crtfb': ('#CRTFv0\npoly[[1pix,2pix],[3pix,4pix],[5pix,1pix]], coord=image\nsymbol[[2deg, 3deg], .]\n'
+              'poly[[18h12m24s, -23d11m00s], [18h12m25s, -23d11m00s], [18h12m25s, -23d10m00s]]\n'
+              'poly[[10deg, 20deg], [11deg, 20deg], [11deg, 21deg], [10deg, 21deg]], coord=GALACTIC\n'
+              'annulus[[17h51m03.2s, -45d17m50s], [0.10deg, 4.12deg]]\nbox[[18h12m24s, -23d11m00s], [18h12m20s, -23d10m00s]]\n'
+              'centerbox[[10deg, 20deg], [2arcmin, 1arcmin]]\nline[[10deg, 20deg], [11deg, 21deg]]\ntext[[10deg, 20deg], \'my text\']\n'),
     'fits': 'n/a',
 }
 
@@ -419,9 +455,6 @@ def run_case(case, obs):
                 key = 'input-mutated:' + fam
                 detail = changed[:3]
                 k0 = changed[0]
-                obj = pool.objects()[k0]
-                if fam in ('serialize', 'write') and k0.startswith(('pix', 'sky')):
-                    key = 'input-mutated:' + fam
                 obs.violation(key, f'operation {op} changed {detail} (bit-level fingerprint of the pool before/after)')
                 # rebuild the pool so that later operations are judged on their own
                 pool = Pool(case['pool'], workdir)
